@@ -261,6 +261,7 @@ type c12H struct {
 	dialed []int64
 	codes  map[string]int64
 	cov    map[string]bool
+	blocked map[int]chan struct{} // conn id -> its Connected handler waits on this
 	line   []int64
 	lastOp int64
 	prev   [][2]int64
@@ -367,7 +368,7 @@ func (h *c12H) newConn(lim bool, t transport.Transport, raddr ma.Multiaddr) *c12
 }
 
 func newC12H(dialAttempts int64) *c12H {
-	h := &c12H{sconns: map[int]*Conn{}, opens: map[int]*c12OpenPark{}, dials: map[int64]*c12DialPark{}, codes: map[string]int64{},
+	h := &c12H{blocked: map[int]chan struct{}{}, sconns: map[int]*Conn{}, opens: map[int]*c12OpenPark{}, dials: map[int64]*c12DialPark{}, codes: map[string]int64{},
 		cov: map[string]bool{}, line: []int64{0, dialAttempts}}
 	priv, _, err := ic.GenerateEd25519Key(rand.Reader)
 	if err != nil {
@@ -400,6 +401,7 @@ func newC12H(dialAttempts int64) *c12H {
 		panic(err)
 	}
 	h.s = s
+	s.Notify(&c12Notifiee{h: h})
 	h.direct = &c12Tpt{h: h}
 	h.relay = &c12Tpt{h: h, proxy: true}
 	if err := s.AddTransport(h.direct); err != nil {
@@ -426,6 +428,13 @@ func newC12H(dialAttempts int64) *c12H {
 }
 
 func (h *c12H) close() {
+	h.mu.Lock()
+	for id, ch := range h.blocked {
+		close(ch)
+		delete(h.blocked, id)
+	}
+	h.mu.Unlock()
+	synctest.Wait()
 	h.mu.Lock()
 	for _, c := range h.calls {
 		c.cancel()
@@ -887,6 +896,10 @@ func (g *c12Gen) randomOp() {
 		switch k := r.Intn(100); {
 		case k < 14:
 			lim, proxy := g.pickConnClass()
+			if r.Chance(1, 6) {
+				h.opAddBlocked(lim, proxy)
+				return
+			}
 			h.opAdd(lim, proxy, r.Chance(1, 8))
 			return
 		case k < 22:
@@ -939,8 +952,21 @@ func (g *c12Gen) randomOp() {
 			}
 			h.opOpenRes(openTids[r.Intn(len(openTids))], r.Chance(2, 3))
 			return
-		case k < 80:
+		case k < 78:
 			g.randAddrs()
+			return
+		case k < 80:
+			h.mu.Lock()
+			var ids []int
+			for id := range h.blocked {
+				ids = append(ids, id)
+			}
+			h.mu.Unlock()
+			if len(ids) == 0 {
+				continue
+			}
+			sort.Ints(ids)
+			h.opUnblock(ids[r.Intn(len(ids))])
 			return
 		case k < 83:
 			if len(h.conns) == 0 || len(h.calls) >= 7 {
@@ -1007,6 +1033,27 @@ func (g *c12Gen) opening(kind int) {
 		}
 		if kind == 6 {
 			h.opAdd(false, false, true) // a direct connection that is gone before anybody can use it
+		}
+	case 11:
+		// waiters with a deadline; a direct connection is admitted in time but a Connected
+		// handler blocks until after the deadline
+		h.opAdd(true, true, false)
+		k := 1 + r.Intn(3)
+		for j := 0; j < k; j++ {
+			g.startCall(false, noAllow())
+		}
+		h.opAddBlocked(false, r.Chance(1, 5))
+		d := len(h.conns) - 1
+		if r.Chance(2, 3) {
+			h.opExpire()
+		}
+		if r.Chance(2, 3) {
+			h.opUnblock(d)
+		}
+		for tid := 0; tid < k; tid++ {
+			if r.Chance(2, 3) {
+				h.opOpenRes(tid, r.Chance(3, 4))
+			}
 		}
 	case 9:
 		// BasicHost.Connect with every option subset against none / limited only / direct / both
@@ -1186,7 +1233,7 @@ func TestVerifC12(t *testing.T) {
 	r := verifh.NewRand(verifh.Seed())
 	for i := 0; i < n; i++ {
 		cr := r.Fork()
-		kind := cr.Intn(11)
+		kind := cr.Intn(12)
 		steps := 4 + cr.Intn(22)
 		first := i < n/6
 		if first {
@@ -1210,9 +1257,9 @@ func c12ParseOps(in []int64) (ops [][]int64) {
 	for i < len(in) {
 		var n int
 		switch in[i] {
-		case 1, 10:
+		case 1, 10, 13:
 			n = 3
-		case 2, 3, 5:
+		case 2, 3, 5, 14:
 			n = 2
 		case 4:
 			n = 5
@@ -1278,6 +1325,10 @@ func c12Replay(h *c12H, ops [][]int64) {
 			h.opStartOn(int(o[1]), o[2] != 0)
 		case 12:
 			h.opConnect(o[1] != 0, o[2] != 0, o[3] != 0)
+		case 13:
+			h.opAddBlocked(o[1] != 0, o[2] != 0)
+		case 14:
+			h.opUnblock(int(o[1]))
 		}
 	}
 }
@@ -1380,5 +1431,69 @@ func (h *c12H) opConnect(allow, force, nodial bool) {
 			c.errc = c12ErrCode(err)
 		}
 	}()
+	h.finish()
+}
+
+// a Notifiee whose Connected handler blocks for the connections the script says
+type c12Notifiee struct{ h *c12H }
+
+func (n *c12Notifiee) Listen(network.Network, ma.Multiaddr)      {}
+func (n *c12Notifiee) ListenClose(network.Network, ma.Multiaddr) {}
+func (n *c12Notifiee) Disconnected(network.Network, network.Conn) {}
+func (n *c12Notifiee) Connected(_ network.Network, c network.Conn) {
+	sc, ok := c.(*Conn)
+	if !ok {
+		return
+	}
+	fc, ok := sc.conn.(*c12Conn)
+	if !ok {
+		return
+	}
+	n.h.mu.Lock()
+	ch := n.h.blocked[fc.id]
+	n.h.mu.Unlock()
+	if ch != nil {
+		<-ch
+	}
+}
+
+// opAddBlocked: an inbound connection arrives while a Notifiee.Connected handler
+// blocks for it: addConn does not return until opUnblock
+func (h *c12H) opAddBlocked(lim, proxy bool) {
+	var t transport.Transport = h.direct
+	raddr := ma.StringCast(fmt.Sprintf("/ip4/5.6.7.8/tcp/%d", 6000+len(h.conns)))
+	if proxy {
+		t = h.relay
+		raddr = ma.StringCast(fmt.Sprintf("/ip4/9.9.9.9/tcp/%d/p2p/%s/p2p-circuit", 6000+len(h.conns), c12RelayID))
+	}
+	c := h.newConn(lim, t, raddr)
+	h.mu.Lock()
+	h.blocked[c.id] = make(chan struct{})
+	h.mu.Unlock()
+	h.lastOp = 1
+	h.line = append(h.line, 13, c12b(lim), c12b(proxy))
+	go func() {
+		if _, err := h.s.addConn(c, network.DirInbound); err != nil {
+			h.mu.Lock()
+			h.cov["addconn.error"] = true
+			h.mu.Unlock()
+		}
+	}()
+	h.mu.Lock()
+	h.cov["addconn.connected_handler_blocked"] = true
+	h.mu.Unlock()
+	h.finish()
+}
+
+// opUnblock: the blocked Connected handler of connection id returns
+func (h *c12H) opUnblock(id int) {
+	h.lastOp = 14
+	h.line = append(h.line, 14, int64(id))
+	h.mu.Lock()
+	if ch := h.blocked[id]; ch != nil {
+		close(ch)
+		delete(h.blocked, id)
+	}
+	h.mu.Unlock()
 	h.finish()
 }
